@@ -26,12 +26,14 @@ def generate(seed, tier):
     names = ["dominated_operations"] if rng.random() < 0.5 else []
     obs = []
     pre = rng.random()
-    if pre < 0.25:
+    if pre < 0.2:
         obs.append({"t": "is_completed", "ft": None})
-    elif pre < 0.4:
-        obs.append({"t": "is_completed", "ft": ["operations"]})  # does not satisfy the updater's needs
-    elif pre < 0.5:
-        obs.append({"t": "remaining_operations", "ft": None})
+    elif pre < 0.45:
+        # a pre-existing observer that may or may not satisfy the updater's needs
+        lv = ["operations", "machines", "jobs"]
+        obs.append({"t": "is_completed", "ft": [x for x in lv if rng.random() < 0.5] or [rng.choice(lv)]})
+    elif pre < 0.55:
+        obs.append({"t": "remaining_operations", "ft": None if rng.random() < 0.5 else [rng.choice(["machines", "jobs"])]})
     default = rng.random() < 0.5
     obs.append({"t": "residual", "builder": rng.choice(BUILDERS), "rm": True if default else rng.random() < 0.5,
                 "rj": True if default else rng.random() < 0.5})
